@@ -14,11 +14,14 @@ def main():
     ap = argparse.ArgumentParser()
     ap.add_argument("--property", required=True)
     ap.add_argument("--tier", default=os.environ.get("VERIF_TIER", "quick"), choices=["quick", "thorough"])
+    ap.add_argument("--no-evidence", action="store_true", help="self-test runs must not overwrite the evidence file")
     a = ap.parse_args()
     seed = int(os.environ.get("VERIF_SEED", "0") or 0)
     prop = a.property
     try:
         from . import runner
+        if a.no_evidence:
+            runner.EVID = os.path.join(runner.OUT, "evidence-scratch")
         runner.clean_out_for(prop)
         if prop in ("C01", "C03", "C04", "C05", "C07", "C08"):
             from . import check_core
